@@ -41,7 +41,11 @@ if __name__ == '__main__':
         res = solve_all(rep.obligations, timeout_s=timeout)
         kinds = {o.name: o.kind for o in rep.obligations}
         vac = [k for k, v in res.items() if kinds[k] == 'canary' and v[0] == 'unsat']
-        for k in vac: print('    VACUOUS', k)
+        for k in vac:
+            if '/callcanary.' not in k: print('    VACUOUS', k)
+        for k in vac:
+            if '/callcanary.after@' in k and k.replace('/callcanary.after@', '/callcanary.before@') not in vac:
+                print('    CALL-VACUOUS', k, '(the assumed contract is contradictory at this call)')
         res = {k: v for k, v in res.items() if kinds[k] != 'canary'}
         bad = {k: v for k, v in res.items() if v[0] != 'unsat'}
         print('%s: %d obligations, %d discharged, paths=%d, %.1fs' % (key, len(res), len(res) - len(bad), rep.paths, time.time() - t0))
